@@ -136,6 +136,15 @@ pub(crate) async fn cleanup_stopped_child_resources(
       ?stopped_child_actor_type,
       "No EndpointInfo found to remove for stopped child (might be PipeReader or already cleaned up)."
     );
+    // A session that stops before the core has processed its NewConnectionEstablished has no
+    // EndpointInfo yet. Remember it so the late registration does not install a dead connection.
+    if stopped_child_actor_type == ActorType::Session && !is_full_core_shutdown && error_opt.is_some() {
+      let mut state = core_arc.core_state.write();
+      if state.sessions_stopped_before_registration.len() >= 1024 {
+        state.sessions_stopped_before_registration.clear();
+      }
+      state.sessions_stopped_before_registration.insert(stopped_child_actor_id);
+    }
   }
 
   // Notify the ISocket logic that its pipe has been detached.
